@@ -53,8 +53,8 @@ RD_JS = one(rd.rule_rd_jschunk) + js(rd.rule_rd_decode, rd.rule_rd_eof, rd.rule_
 GS_ALL = one(gs.rule_gs_modstate, gs.rule_gs_classattr, gs.rule_gs_defaults, gs.rule_gs_ctxescape, gs.rule_gs_exec)
 LK_ALL = both(lk.rule_lk_taint, lk.rule_lk_map, lk.rule_lk_anchor, lk.rule_lk_part, lk.rule_lk_cache) + one(lk.rule_rx_jsesc)
 RS_ALL = one(rs.rule_rs_close, rs.rule_rs_epipe, rs.rule_rs_decerr)
-FL_ALL = both(rs.rule_fl_flags, rs.rule_fl_fields)
-IF_ALL = one(ifc.rule_if_layer, ifc.rule_if_conf, ifc.rule_if_entry, ifc.rule_cl_stdout, ifc.rule_cl_exit)
+FL_ALL = both(rs.rule_fl_flags, rs.rule_fl_fields, rs.rule_fl_none_complete)
+IF_ALL = one(ifc.rule_if_layer, ifc.rule_if_conf, ifc.rule_if_entry, ifc.rule_if_args, ifc.rule_if_df, ifc.rule_cl_stdout, ifc.rule_cl_exit, ifc.rule_cl_mode)
 
 
 def only(rules, port):
@@ -76,7 +76,7 @@ PROPS = {
         'not_decided': 'that the regex-based rewriting of an arbitrary select list preserves its meaning (comma structure inside nested brackets, AS inside expressions); values computed by user expressions.',
     },
     'C02': {
-        'rules': WR_ALL + both(conf.rule_pa_conf, conf.rule_wr_order, conf.rule_pa_excl) + both(sk.rule_sk_stop, pa.rule_pa_top, pa.rule_pa_zero, pa.rule_pa_asc),
+        'rules': WR_ALL + both(conf.rule_pa_conf, conf.rule_wr_order, conf.rule_pa_excl) + both(sk.rule_sk_stop, sk.rule_sk_unnest_pos, pa.rule_pa_top, pa.rule_pa_zero, pa.rule_pa_asc),
         'thorough_rules': both(sk.rule_sk_emit, conf.rule_rs_proto) + one(xp.rule_xp_verdicts, xp.rule_xp_roles),
         'explanation': 'Decides the composition sort -> dedup -> truncate on the exhaustive configuration table of the shallow parser (1024 keyword configurations): wrapping order Top, Uniq|UniqCount, Sorted and presence iff keyword; per writer: stable ascending sort on the key only with DESC = reversal of that result, first-occurrence dedup on the immutable record image, insertion-ordered multiplicity map with count prefix, TOP refusing iff NW >= N and counting forwarded records; termination: every write() returns a boolean, every downstream verdict is propagated, a false verdict sets stop_flag, the loop tests it and inner loops break.',
         'not_decided': 'that user sort keys are mutually comparable; stability of sorted()/Array.sort (trusted language semantics).',
@@ -124,7 +124,7 @@ PROPS = {
         'not_decided': 'completeness of the candidate filter for spellings of a name other than the canonical escaped one.',
     },
     'C10': {
-        'rules': both(cs.rule_cs_trigger, cs.rule_cs_dispatch, cs.rule_cs_width, cs.rule_cs_writer, cs.rule_rx_field, rs.rule_fl_flags),
+        'rules': both(cs.rule_cs_trigger, cs.rule_cs_dispatch, cs.rule_cs_width, cs.rule_cs_writer, cs.rule_rx_field, rs.rule_fl_flags, rs.rule_fl_none_complete),
         'thorough_rules': both(cs.rule_cs_accept, cs.rule_cs_extws, cs.rule_rx_newline) + one(xp.rule_rx_xp),
         'explanation': 'Decides necessary conditions of the round trip (stated as such): the characters that trigger quoting include every character the reader treats specially under the same policy, inner quotes are doubled (globally) and the field enclosed, reader/writer dispatch tables are total over the five policies and pair matching split/join, delimiter comparisons and position steps use the delimiter length, one separator per record, and lossy output (None, delimiter in simple output) always sets its warning flag which get_warnings reports.',
         'not_decided': 'equality of the table read back for any table (a round-trip statement over all strings); encoding behaviour of io.TextIOWrapper.',
@@ -148,19 +148,19 @@ PROPS = {
         'not_decided': 'equality of results across back-ends (depends on pandas/sqlite value conversion).',
     },
     'C14': {
-        'rules': both(sk.rule_sk_err, sk.rule_sk_nr, conf.rule_pa_hdrcall, conf.rule_pa_excl, rs.rule_fl_flags, rs.rule_fl_fields) + one(rs.rule_rs_decerr, ifc.rule_cl_exit),
+        'rules': both(sk.rule_sk_err, sk.rule_sk_nr, conf.rule_pa_hdrcall, conf.rule_pa_excl, hd.rule_va_index) + FL_ALL + one(rs.rule_rs_decerr, ifc.rule_cl_exit),
         'thorough_rules': both(sk.rule_sk_eof, rd.rule_rd_bom, cs.rule_cs_accept, ag.rule_ag_const),
         'explanation': 'Decides error/warning structure: one try covers every user fragment in every generated program; handlers never fall through (first offending record ends the query); bad field -> runtime error with index+1 and NR, bad key with the key and NR, parsing errors re-raised unchanged, anything else -> runtime error with NR; text-detectable conflicts raise the parsing class before the header is handed over and nothing can raise after it; decode faults map to the IO class; each warning flag has one neutral initialisation, set-sites only under its condition and one guarding read in get_warnings; field-count warning records the first record per count and cites the two smallest.',
         'not_decided': '"iff the condition occurred" for conditions defined over string contents (e.g. exactness of the delimiter-count heuristic).',
     },
     'C15': {
-        'rules': RS_ALL + py(wr.rule_wr_ret, wr.rule_wr_prop, wr.rule_wr_fin, sk.rule_sk_stop, conf.rule_rs_proto, conf.rule_pa_hdrcall),
+        'rules': RS_ALL + py(wr.rule_wr_ret, wr.rule_wr_prop, wr.rule_wr_fin, sk.rule_sk_stop, sk.rule_sk_unnest_pos, conf.rule_rs_proto, conf.rule_pa_hdrcall),
         'thorough_rules': py(rs.rule_fl_flags, rd.rule_rd_decode) + both(sk.rule_sk_err),
         'explanation': 'Decides fault handling structure (Python): the broken-pipe handler covers every stream write, sets the flag and returns False, finish() is a no-op afterwards; the False propagates through every chain writer to stop_flag and the loops; every stream.read is reachable only through the try that maps UnicodeDecodeError to the IO error; every open() in the CSV/sqlite front-ends is closed on all paths (with / flag-coupled try-finally / object closed in the creator\'s finally); protocol: parser calls only set_header (once, unwrapped, first), the run only write, query() calls finish exactly once after a successful run, not in a finally.',
         'not_decided': 'OS-level behaviour of pipes and the text wrapper\'s flushing.',
     },
     'C16': {
-        'rules': GS_ALL + py(sk.rule_sk_scope, lk.rule_lk_cache, ow.rule_ow_mut),
+        'rules': GS_ALL + py(sk.rule_sk_scope, lk.rule_lk_cache, ow.rule_ow_mut) + one(hd.rule_va_record),
         'thorough_rules': py(sk.rule_sk_alias),
         'explanation': 'Decides isolation as absence of shared mutable state (hence independence of every schedule and history): inventory of module-level bindings with every mutable one never the receiver of a mutating operation; `global` writes allow-listed (two debug flags); no class-level mutable attribute, no mutable default; the per-query context is created per call, only passed down or captured by per-run closures; exec receives explicit globals and a per-call locals mapping and runs the composed skeleton whose every binding is local to the wrapper function; the LIKE cache lives in the context.',
         'not_decided': 'stdlib-internal caches (re) and whatever user expressions touch; the JavaScript module-global query_context is outside this property\'s anchors and reported only as evidence.',
